@@ -57,6 +57,7 @@ class Entry(NamedTuple):
     options: dict
     result: object  # Obj lineage of the kernel's return value, 'RAISES', or ('UNMODELLED', reason)
     deco: ast.Call
+    attrs: dict = {}  # the attributes GridUFunc.__init__ stores for these options (defaults as the source sets them)
 
 
 def extract(P: Project, module: str = "gridops") -> List[Entry]:
@@ -110,8 +111,43 @@ def _extract(P: Project, module: str) -> List[Entry]:
                     raise AnalysisError(f"{module}.{st.name}: decorator option `{k}` is not a constant ({val!r})")
             sig = opts.get("signature", "")
             fi = P.func(f"{module}:{st.name}")
-            out.append(Entry(st.name, fi, sig, parse_signature(sig) if isinstance(sig, str) else None, opts, kernel_lineage(P, fi), d))
+            out.append(Entry(st.name, fi, sig, parse_signature(sig) if isinstance(sig, str) else None, opts, kernel_lineage(P, fi), d, gridufunc_attrs(P, opts)))
     return out
+
+
+OPTION_NAMES = ("boundary_width", "boundary", "fill_value", "dask", "map_overlap", "pad_before_func")
+
+
+def gridufunc_attrs(P: Project, opts: dict) -> dict:
+    """What GridUFunc.__init__ stores when given these keyword options: the constructor is interpreted, so the
+    defaults of options that are not given are the ones the source sets - never a table of this checker."""
+    key = repr(sorted((k, repr(v)) for k, v in opts.items()))
+    cache = P.__dict__.setdefault("_gu_attrs_cache", {})
+    if key in cache:
+        return cache[key]
+    fi = P.func("grid_ufunc:GridUFunc.__init__")
+    ev = Evaluator(P, models={"grid_ufunc:GridUFunc._get_signature_from_str_or_type_hints": lambda ev_, a, k, n: Obj("Signature", "sig")})
+    kwname = fi.params[3]
+    if not kwname:
+        raise AnalysisError("GridUFunc.__init__ no longer takes its options as **kwargs")
+
+    def make():
+        me = Obj("GridUFunc", "gu", (), {"__class__": "grid_ufunc:GridUFunc"})
+        o = dict(opts)
+        o.setdefault("signature", "(X:center)->(X:center)")
+        return {"self": me, fi.params[0][1] if len(fi.params[0]) > 1 else "ufunc": Obj("func", "ufunc"), kwname: o}
+
+    try:
+        outs = ev.run_paths(fi, make)
+    except Unmodelled as e:
+        raise AnalysisError(f"GridUFunc.__init__ cannot be interpreted ({e})")
+    rets = [o for o in outs if o.kind == "return"]
+    if len(outs) != 1 or not rets:
+        raise AnalysisError(f"GridUFunc.__init__ does not simply store the options {sorted(opts)} ({[(o.kind, o.value) for o in outs]})")
+    me = rets[0].env.get("self")
+    res = {k: v for k, v in me.attrs.items() if k in OPTION_NAMES}
+    cache[key] = res
+    return res
 
 
 def kernel_lineage(P: Project, fi):
